@@ -3,7 +3,12 @@ dimension-reduced `IndexedData`.
 
 Real objects: `glue.core.Data` (stored numeric, categorical, derived, linked through an identity link
 from a second dataset, pixel, world with Identity/Affine coordinates), every `SubsetState` subclass
-found by introspection, `glue.core.data_derived.IndexedData`.
+found by introspection, `glue.core.data_derived.IndexedData`; and (round 3) a second and a third dataset of
+the same number of dimensions whose pixel ids are `LinkSame`-linked to the first one's in every axis order
+(`CrossEnv`: all permutations, one axis left unlinked, longer grids, the third dataset reachable only through
+the second): their pixel / world / derived / value ids and selections defined on them (regions with one, two,
+three attributes, ranges, inequalities, `SliceSubsetState` / `PixelSubsetState` of the other dataset,
+`MaskSubsetState` with the other dataset's ids) are evaluated on the first dataset under every view kind.
 
 Observables: `data[cid]` / `data[cid, view]`, `data.get_mask(state)` / `data.get_mask(state, view)`,
 `IndexedData.get_data / get_mask / compute_statistic / compute_histogram`.  Python never judges: it
@@ -861,7 +866,7 @@ def cross_views(shape, rng, tier):
     other.append(["b", [["i", (s - 1) if a % 2 == 0 else -s] for a, s in enumerate(shape)], "t"])
     per_axis = [axis_items(n) for n in shape]
     sl_only = [[it for it in items if it[0] == "s"] for items in per_axis]
-    nrand = 3 if tier == "quick" else 40
+    nrand = 3 if tier == "quick" else 24
     for _ in range(nrand):
         k = nd if rng.random() < 0.7 else rng.randint(1, nd)
         grid.append(["b", [list(rng.choice(sl_only[a])) for a in range(k)], "t"])
@@ -1276,7 +1281,7 @@ class IdxMask(IndexedBase):
 
     def _cross(self, tier, rng):
         """the parent's selections are defined on the ids of a second / third dataset pixel-linked in every order"""
-        for sh in ([[2, 3], [2, 3, 4]] if tier == "quick" else [[2, 3], [3, 3], [2, 3, 4], [2, 2, 3], [3, 1, 2]]):
+        for sh in ([[2, 3], [2, 3, 4]] if tier == "quick" else [[2, 3], [3, 3], [2, 3, 4], [2, 2, 3]]):
             for ei, key in enumerate(cross_variants(len(sh), tier)):
                 avail = cross_state_names(env_for(sh, key))
                 names = [n for n in IDX_CROSS if n in avail]
@@ -1287,7 +1292,7 @@ class IdxMask(IndexedBase):
                     if tier == "quick" and len(vs) > 5:
                         vs = vs[:2] + [vs[i] for i in sorted(rng.sample(range(2, len(vs)), 3))]
                     for i, v in enumerate(vs):
-                        for n in round_robin(names, 2 if tier == "quick" else 4, i + xi * 3 + ei):
+                        for n in round_robin(names, 2 if tier == "quick" else 3, i + xi * 3 + ei):
                             yield [list(sh), ix, ix1, n + "@" + key, v]
 
     def cases(self, tier, rng):
@@ -1494,7 +1499,7 @@ THEOREMS = ["C04." + t for t in (
     "roi_pixel_shortcut_values roi_pixel_shortcut_view slice_state_view slice_state_values mask_state_view "
     "mask_state_general_view element_state_view state_view state_view_values "
     "chunked_roi_scalar_view_pinned_raises loop1d_scalar_view_pinned_raises cross_pixel_axis_map "
-    "cross_pixel_axis_forward_wrong cross_roi_shortcut_inverse_ok cross_roi_view cross_slice_view cross_mask_view indexed_get indexed_pixel indexed_mask "
+    "cross_pixel_axis_forward_wrong cross_roi_shortcut_inverse_ok cross_roi_view cross_slice_view cross_slice_point cross_mask_view indexed_get indexed_pixel indexed_mask "
     "indexed_after_reindex indexed_histogram_selection").split()]
 
 PROP = Property(
@@ -1509,6 +1514,9 @@ PROP = Property(
     rule="shapes <= 3-d with dims <= 3 (quick) / 4 (thorough) x the whole basic view domain (one raw slice per distinct selection of "
          "each axis plus alternative spellings, every integer incl. negative ones, every tuple length <= ndim, bare items, None, "
          "Ellipsis) + seeded tuples of index arrays and Boolean masks, x every attribute kind x every selection class found by "
-         "introspection; IndexedData for every index tuple and a change of indices; non-trivial = a view other than None/Ellipsis "
+         "introspection; the same for attributes and selections defined on the ids of a second / third dataset pixel-linked in "
+         "every axis order (all permutations of <= 3 axes, partial links, longer grids; shapes up to [2,3,4]) under every view "
+         "kind, every selection under every slices-only view; IndexedData for every index tuple and a change of indices; "
+         "non-trivial = a view other than None/Ellipsis "
          "(reduced datasets: at least one axis removed)",
 )
